@@ -95,6 +95,12 @@ func configs(tier string) []config {
 			}
 		}
 	}
+	// n = 12, 13: sparse families, no duplicates (pairwise isomorphism inside invariant buckets) and
+	// the same number of classes for both placements / splits
+	cs = append(cs, config{12, 1, 4, 0}, config{12, 3, 7, 1})
+	if tier == "thorough" {
+		cs = append(cs, config{12, 3, 4, 1}, config{12, 2, 3, 0}, config{13, 2, 7, 0}, config{13, 1, 3, 1}, config{12, 5, 5, 0}, config{10, 1, 4, 0}, config{10, 3, 4, 1})
+	}
 	if tier == "thorough" {
 		// n = 9: unpruned (count against A000088 + pairwise distinct is complete), and
 		// the strongly pruned families against the oracle's class sets
@@ -197,6 +203,10 @@ func runConfig(r *driver.Run, c config, predName string, pf func(*model.G) bool)
 	// slice and checked for duplicates by sorting at the end
 	huge := pf == nil && n >= 10
 	var codes []uint64
+	// n >= 12 (sparse pruned families only): the 64-bit canonical code does not reach; graphs are
+	// bucketed by an isomorphism invariant and compared pairwise inside the buckets
+	wide := n >= 12
+	buckets := map[string][]*model.G{}
 	perShard := make([]int, m)
 	total := 0
 	rr := 0
@@ -240,6 +250,21 @@ func runConfig(r *driver.Run, c config, predName string, pf func(*model.G) bool)
 		if wf != "" {
 			r.Fail("malformed-value", "Value", "shard %d/%d of n=%d (%s) yielded a malformed graph (#%d of the shard): %s", a, m, n, predName, perShard[a], wf)
 		}
+		if wide {
+			if pf != nil && !pf(mg) {
+				r.Fail("predicate", "yielded graph violates the predicate", "n=%d m=%d: shard %d yielded %s which does not satisfy %s", n, m, a, gutil.G6(mg), predName)
+			}
+			sig := model.WideSig(mg)
+			for _, h := range buckets[sig] {
+				if model.Isomorphic(mg, h) {
+					r.Fail("duplicate", "two yielded graphs are isomorphic", "n=%d m=%d %s (%s): %s and %s are both yielded and are isomorphic", n, m, predName, []string{"preprune", "prune", "both"}[c.placement], gutil.G6(mg), gutil.G6(h))
+				}
+			}
+			buckets[sig] = append(buckets[sig], mg)
+			perShard[a]++
+			total++
+			continue
+		}
 		code, _ := model.Canon(mg)
 		if huge {
 			codes = append(codes, code.Bits)
@@ -274,6 +299,35 @@ func runConfig(r *driver.Run, c config, predName string, pf func(*model.G) bool)
 			}
 		}
 		r.Probe("huge-unpruned-search-checked-by-sorted-codes")
+	}
+	if wide {
+		// completeness cannot be decided independently at this size; what can: the number of classes
+		// does not depend on where the predicate is placed nor on the split (a second, unsplit pass
+		// with the other placement must yield as many graphs)
+		var other *search.GraphIterator
+		r.Must("WithPruning", budget, func() {
+			if c.placement == 0 {
+				other = search.WithPruning(n, 0, 1, never, pr)
+			} else {
+				other = search.WithPruning(n, 0, 1, pr, never)
+			}
+		})
+		cnt := 0
+		for {
+			var ok bool
+			r.Must("Next(second pass)", budget, func() { ok = other.Next() })
+			if !ok {
+				break
+			}
+			cnt++
+		}
+		if cnt != total {
+			r.Fail("missing", "class count differs between placements", "n=%d %s: %d graphs with the predicate as %s and m=%d, %d with the other placement and m=1", n, predName, total, []string{"preprune", "prune", "both"}[c.placement], m, cnt)
+		}
+		r.Probe("wide-search-checked-by-pairwise-isomorphism")
+		r.Count("graphs_yielded", int64(total))
+		r.Nontrivial = total >= 4
+		return
 	}
 	// completeness
 	if pf == nil && n < len(model.A000088) {
@@ -346,7 +400,7 @@ func main() {
 		Engine:   "shard-cluster",
 		Level:    "exploration",
 		Rule: "a case is one configuration (n, m, hereditary predicate, placement as preprune / prune / both): all m shard iterators are created and advanced by one consumer in a seeded interleaving (round-robin, one after another, tape-random) until all are exhausted (and must stay exhausted); every yielded value must be a well-formed graph on n vertices, the independent canonical codes of all yielded graphs must be pairwise distinct and their set must equal the independently generated set of classes satisfying the predicate (unpruned: additionally the count must equal A000088(n)). " +
-			"Enumerated: all (n <= 7, m <= 12) unpruned and with each of 8 listed predicates x 3 placements; n = 8 unpruned for m <= 8 and predicates for m in {1,2,3,5} (thorough: m <= 16 resp. 12; n = 9 unpruned for 7 values of m and n = 10 unpruned once); n = 9, 10 (thorough 10, 11) for the strongly pruned families triangle-free, bipartite, max-degree<=2, edges<=5, forest. Random runs draw n <= 7, m <= 10 (one in six: m from {13,...,257}) and a tape-drawn hereditary predicate (listed, induced-H-free for a random H on 2-4 vertices, or a conjunction). Non-trivial = at least 4 graphs yielded; distinct = distinct fingerprints of the yielded code sequences.",
+			"Enumerated: all (n <= 7, m <= 12) unpruned and with each of 8 listed predicates x 3 placements; n = 8 unpruned for m <= 8 and predicates for m in {1,2,3,5} (thorough: m <= 16 resp. 12; n = 9 unpruned for 7 values of m and n = 10 unpruned once); n = 9, 10 (thorough 10, 11) for the strongly pruned families triangle-free, bipartite, max-degree<=2, edges<=5, forest. n = 12, 13 for max-degree<=3 (n = 12), max-degree<=2, forest, edges<=5: no two yielded graphs isomorphic (pairwise test inside invariant buckets) and equal counts for both placements and for split and unsplit search; n = 10 max-degree<=3 against the oracle (thorough). Random runs draw n <= 7, m <= 10 (one in six: m from {13,...,257}) and a tape-drawn hereditary predicate (listed, induced-H-free for a random H on 2-4 vertices, or a conjunction). Non-trivial = at least 4 graphs yielded; distinct = distinct fingerprints of the yielded code sequences.",
 		Assumptions: []string{
 			"predicates are hereditary (closed under induced subgraphs) by construction",
 			"n <= 8 unpruned (9 in thorough), n <= 10 (11 in thorough) for strongly pruned families: a defect that needs more vertices is not reached",
